@@ -19,20 +19,20 @@ open Wac Wac.Ast Wac.Lex Wac.Parse Wac.Spec.Grammar
 
 /-! ### forward evaluation of the primitive parser steps -/
 
-theorem parseToken_ok {st : PState} {k : Token} (h : peekTok st = some k) :
+theorem parseToken_ok {st : PState} {k : Token} (h : nextTok st = some k) :
     parseToken st k = .ok (tokAt st, adv st) := parseToken_eq_ok.mpr ⟨h, rfl, rfl⟩
 
-theorem parseIdent_ok {st : PState} (h : peekTok st = some .Ident) :
+theorem parseIdent_ok {st : PState} (h : nextTok st = some .Ident) :
     parseIdent st = .ok (identAt (tokAt st), adv st) := parseIdent_eq_ok.mpr ⟨h, rfl, rfl⟩
 
-theorem parseString_ok {st : PState} (h : peekTok st = some .String) :
+theorem parseString_ok {st : PState} (h : nextTok st = some .String) :
     parseString st = .ok (stringAt (tokAt st), adv st) := parseString_eq_ok.mpr ⟨h, rfl, rfl⟩
 
 @[simp] theorem Except.ok_bind {ε α β} (a : α) (f : α → Except ε β) :
     ((Except.ok a : Except ε α) >>= f) = f a := rfl
 
-theorem head_ne_of_peekTok {st : PState} {k k' : Token} (hk' : isLit k' = true)
-    (h : peekTok st = some k) (hne : k ≠ k') : (abs st).head? ≠ some (litTok k') := by
+theorem head_ne_of_nextTok {st : PState} {k k' : Token} (hk' : isLit k' = true)
+    (h : nextTok st = some k) (hne : k ≠ k') : (abs st).head? ≠ some (litTok k') := by
   intro hh
   have := (head_abs_lit hk' st).mp hh
   rw [h] at this; exact hne (Option.some.inj this)
@@ -48,8 +48,10 @@ theorem parsePostfix_complete {ps : List PostfixExpr} {ts r : List STok} (hm : M
   | nil =>
     subst hts
     obtain ⟨m, rfl⟩ : ∃ m, n = m + 1 := ⟨n - 1, by omega⟩
-    have h1 : peekTok st ≠ some .Dot := fun h => hd ((head_abs_lit rfl st).mpr h)
-    have h2 : peekTok st ≠ some .OpenBracket := fun h => hb ((head_abs_lit rfl st).mpr h)
+    have h1 : peekTok st ≠ some .Dot := fun h =>
+      hd ((head_abs_lit rfl st).mpr ((nextTok_iff_peekTok rfl).mpr h))
+    have h2 : peekTok st ≠ some .OpenBracket := fun h =>
+      hb ((head_abs_lit rfl st).mpr ((nextTok_iff_peekTok rfl).mpr h))
     refine ⟨[], st, ?_, rfl, rfl⟩
     unfold parsePostfix
     split <;> simp_all
@@ -57,8 +59,8 @@ theorem parsePostfix_complete {ps : List PostfixExpr} {ts r : List STok} (hm : M
     subst hts
     obtain ⟨m, rfl⟩ : ∃ m, n = m + 1 := ⟨n - 1, by omega⟩
     rcases mem_gPostfix.mp h1 with ⟨k1, k2, rfl, rfl⟩ | ⟨k1, k2, k3, rfl, rfl⟩
-    · have l1 := len_of_peekTok k1
-      have l2 := len_of_peekTok k2
+    · have l1 := len_of_nextTok k1
+      have l2 := len_of_nextTok k2
       obtain ⟨post, st', hrec, hpost, hst'⟩ := ih (adv (adv st)) rfl hd hb m (by omega)
       refine ⟨.Access ⟨⟨(tokAt st).span.offset, (identAt (tokAt (adv st))).span.offset -
         (tokAt st).span.offset + (identAt (tokAt (adv st))).span.len⟩, identAt (tokAt (adv st))⟩ :: post,
@@ -66,9 +68,9 @@ theorem parsePostfix_complete {ps : List PostfixExpr} {ts r : List STok} (hm : M
       · unfold parsePostfix
         simp [k1, parseAccessExpr, parseToken_ok k1, parseIdent_ok k2, hrec]
       · simp [hpost, erasePostfix, erase_identAt]
-    · have l1 := len_of_peekTok k1
-      have l2 := len_of_peekTok k2
-      have l3 := len_of_peekTok k3
+    · have l1 := len_of_nextTok k1
+      have l2 := len_of_nextTok k2
+      have l3 := len_of_nextTok k3
       obtain ⟨post, st', hrec, hpost, hst'⟩ := ih (adv (adv (adv st))) rfl hd hb m (by omega)
       refine ⟨.NamedAccess ⟨(tokAt st).span.cover (tokAt (adv (adv st))).span, stringAt (tokAt (adv st))⟩ :: post,
         st', ?_, ?_, hst'⟩
@@ -137,38 +139,38 @@ theorem gPrimary_complete_step (hV : SemverAgree) (g : Nat) (ihE : CompleteE g) 
       · exact ⟨[], _, parseDelimited_nil _ _ _ _ _ _ ((head_abs_lit rfl _).mp hstop), rfl, rfl⟩
     obtain ⟨ys, st4, hdel, rfl, rfl⟩ := hdel
     obtain ⟨k5, habs5⟩ := abs_adv_of_cons (k := .CloseBrace) rfl hr1
-    simp only [parsePrimaryExpr, k1, parseToken_ok k1, parsePackageName_eq_ok.mpr ⟨k2, hpkg0, rfl⟩,
+    simp only [parsePrimaryExpr, peekTok_of_nextTok k1, parseToken_ok k1, parsePackageName_eq_ok.mpr ⟨k2, hpkg0, rfl⟩,
       parseToken_ok k3, hdel, parseToken_ok k5, Except.ok_bind, Except.ok.injEq, Prod.mk.injEq]
     exact ⟨_, _, ⟨rfl, rfl⟩, by simp [erasePrimary, eraseArgs_eq_map], habs5⟩
   · -- nested
     have hr1 := head_of_mem_t hclose
     obtain ⟨e, st2, he0, rfl, rfl⟩ := ihE _ _ _ he (by rw [hr1]; simp [litTok]; decide) (by rw [hr1]; simp [litTok]; decide) pf (by omega)
     obtain ⟨k3, habs3⟩ := abs_adv_of_cons (k := .CloseParen) rfl hr1
-    simp only [parsePrimaryExpr, k1, parseToken_ok k1, he0, parseToken_ok k3, Except.ok_bind,
+    simp only [parsePrimaryExpr, peekTok_of_nextTok k1, parseToken_ok k1, he0, parseToken_ok k3, Except.ok_bind,
       Except.ok.injEq, Prod.mk.injEq]
     exact ⟨_, _, ⟨rfl, rfl⟩, by simp [erasePrimary], habs3⟩
   · -- identifier
-    simp only [parsePrimaryExpr, k1, parseIdent_ok k1, Except.ok_bind, Except.ok.injEq, Prod.mk.injEq]
+    simp only [parsePrimaryExpr, peekTok_of_nextTok k1, parseIdent_ok k1, Except.ok_bind, Except.ok.injEq, Prod.mk.injEq]
     exact ⟨_, _, ⟨rfl, rfl⟩, by simp [erasePrimary, erase_identAt], rfl⟩
 
-theorem peekTok_of_head {st : PState} {k : Token} (hk : isLit k = true)
-    (h : (abs st).head? = some (litTok k)) : peekTok st = some k := (head_abs_lit hk st).mp h
+theorem nextTok_of_head {st : PState} {k : Token} (hk : isLit k = true)
+    (h : (abs st).head? = some (litTok k)) : nextTok st = some k := (head_abs_lit hk st).mp h
 
 theorem gArg_complete_step (g : Nat) (ihE : CompleteE g) : CompleteA (g + 1) := by
   intro st x r h hfollow pf hpf
   obtain ⟨pf, rfl⟩ : ∃ p, pf = p + 1 := ⟨pf - 1, by omega⟩
-  have hfollow' : ∀ st', r = abs st' → (peekTok st' = some .Comma ∨ peekTok st' = some .CloseBrace) := by
+  have hfollow' : ∀ st', r = abs st' → (nextTok st' = some .Comma ∨ nextTok st' = some .CloseBrace) := by
     intro st' hr
     subst hr
     rcases hfollow with h | h
-    · left; rw [comma_eq] at h; exact peekTok_of_head rfl h
-    · right; exact peekTok_of_head rfl h
+    · left; rw [comma_eq] at h; exact nextTok_of_head rfl h
+    · right; exact nextTok_of_head rfl h
   simp [gArg, mem_gId, mem_gString, and_assoc] at h
   rcases h with ⟨k1, rfl, rfl⟩ | ⟨k1, k2, rfl, rfl⟩ | ⟨k1, k2, e', he, rfl⟩ | ⟨k1, k2, e', he, rfl⟩ |
     ⟨k1, rfl, rfl⟩
   · -- inferred
     have hnc : peekTok (adv st) ≠ some .Colon := by
-      rcases hfollow' _ rfl with h | h <;> simp [h]
+      rcases hfollow' _ rfl with h | h <;> simp [peekTok_of_nextTok h]
     refine ⟨.Inferred (identAt (tokAt st)), adv st, ?_, by simp [eraseArg, erase_identAt], rfl, ?_, ?_⟩
     · simp [parseInstantiationArgument, k1, hnc, parseIdent_ok k1]
     · simp [peekIn_iff, k1, instantiationArgumentPeeks]
@@ -223,14 +225,14 @@ def FollowLit (bad : List Token) (r : List STok) : Prop :=
   ∃ k, isLit k = true ∧ k ∉ bad ∧ r.head? = some (litTok k)
 
 theorem FollowLit.peek {bad : List Token} {st : PState} (h : FollowLit bad (abs st)) :
-    ∃ k, peekTok st = some k ∧ k ∉ bad := by
+    ∃ k, nextTok st = some k ∧ k ∉ bad := by
   obtain ⟨k, hk, hb, hh⟩ := h
-  exact ⟨k, peekTok_of_head hk hh, hb⟩
+  exact ⟨k, nextTok_of_head hk hh, hb⟩
 
 theorem FollowLit.peekErr {bad : List Token} {st : PState} (h : FollowLit bad (abs st)) :
     peekErr st = false := by
   obtain ⟨k, hk, _⟩ := h.peek
-  exact peekErr_of_peekTok hk
+  exact peekErr_of_nextTok hk
 
 theorem FollowLit.mono {bad bad' : List Token} {r : List STok} (h : FollowLit bad r)
     (hsub : ∀ k, k ∈ bad' → k ∈ bad) : FollowLit bad' r := by
